@@ -1,4 +1,4 @@
-import ScVerif.C18.HeapTrace
+import ScVerif.C18.HeapTraceShift
 /-!
 # C18 — property theorems, part 13: "…and never modify their arguments" — not even for a moment
 
@@ -11,6 +11,13 @@ its ARGUMENT while it copies the rest and puts it back afterwards ends in the sa
 the code — a before/after comparison cannot tell them apart — but passes through a heap in which the caller's
 mode has no segments.  On the real code the clause is decided by running every operation on arguments that lie
 in read-only pages (any store faults), harness watch.go.
+
+Round 8: `segmentpb.Shift` statement by statement (HeapTraceShift.lean) — the one place besides the loop of
+`Sum` where the package stores into a SEGMENT (`first.Length = …`, into the clone), and the `make` / `out[0] = …` /
+`copy` sequence: `C18_args_never_written_shift`, `C18_concurrent_reader_shift`, and
+`C18_shift_without_clone_writes_argument` (the variant without `proto.Clone`, for every heap); and `modepb.Sum`
+as the concatenation of the traces of its `Shift`s and of the loop of `Sum`: `C18_args_never_written_modeSum`,
+`C18_concurrent_reader_modeSum`.
 
 Only property theorems and their non-vacuity examples live in this file.
 -/
@@ -139,5 +146,109 @@ example :
 example :
     ((([⟨1, 2⟩, ⟨3, -2⟩, ⟨4, 1⟩] : List Edge).take 2).foldl heapStep ⟨[⟨7, none⟩], [], 0⟩).heap
       = [⟨7, none⟩, ⟨0, some 1⟩, ⟨2, some 2⟩, ⟨0, none⟩] := by decide
+
+/-! ## Round 8: `segmentpb.Shift`, statement by statement -/
+
+/-- After every allocating or writing statement of `segmentpb.Shift` — for any heap, any slice and any `d` of
+either sign: the clone of an idle first segment, the store of its `Length` (into the clone), `make`, `out[0] = …`,
+`copy(out[1:], …)`, the allocations of `Cut` in the negative branch — every pre-existing segment cell and backing
+array is unchanged; the last heap of the trace and the result slice are those of `heapShift`, the model
+`C18_args_unchanged` speaks about. -/
+theorem C18_args_never_written_shift (h : Heap) (d : Int) (sl : Slice) :
+    (∀ hi ∈ (shiftTrace true h d sl).1,
+      (∀ a, a < h.cells.length → hi.cells[a]? = h.cells[a]?) ∧
+      (∀ i, i < h.arrays.length → hi.arrays[i]? = h.arrays[i]?)) ∧
+    (shiftTrace true h d sl).2 = (heapShift h d sl).2 ∧
+    (∀ hl, (shiftTrace true h d sl).1.getLast? = some hl → hl = (heapShift h d sl).1) :=
+  ⟨fun hi hmem => (shiftTrace_extends h d sl hi hmem).pointwise, shiftTrace_last h d sl⟩
+
+/-- The clause as a concurrent reader experiences it, for `segmentpb.Shift`: ANY segment list that existed
+before the call (`sl'`: the argument, a list sharing cells or the backing array with it, anything else) reads
+the same values at every moment of the call. -/
+theorem C18_concurrent_reader_shift (h : Heap) (sl' : Slice) (ha : sl'.arr < h.arrays.length)
+    (hc : ∀ a ∈ readSlice h sl', a < h.cells.length) (d : Int) (sl : Slice) :
+    ∀ hi ∈ (shiftTrace true h d sl).1, readSegs hi sl' = readSegs h sl' :=
+  fun hi hmem => readSegs_extends (shiftTrace_extends h d sl hi hmem) sl' ha hc
+
+/-- Why the clone is there ("clone so we don't update the original").  Without it, whenever the list starts
+with an existing idle segment of length `l` and `d > 0`, the heap after the `Length` store shows the CALLER's
+first segment with length `l + d` — for every heap. -/
+theorem C18_shift_without_clone_writes_argument (h : Heap) (d l : Int) (sl : Slice) (first : Nat)
+    (rest : List Nat) (hd : d > 0) (hs : readSlice h sl = first :: rest) (hf : first < h.cells.length)
+    (hcell : readCell h first = ⟨0, some l⟩) :
+    ∃ hi ∈ (shiftTrace false h d sl).1,
+      readCell hi first = ⟨0, some (l + d)⟩ ∧ readCell hi first ≠ readCell h first := by
+  have hne : d ≠ 0 := by omega
+  refine ⟨setCell h first (fun s => ⟨s.mag, some (l + d)⟩), ?_, ?_⟩
+  · unfold shiftTrace
+    simp [hne, hs, hd, hcell]
+  · have key : readCell (setCell h first (fun s => ⟨s.mag, some (l + d)⟩)) first = ⟨0, some (l + d)⟩ := by
+      have hq : h.cells[first]? = some (readCell h first) := by
+        simp only [readCell]
+        rw [List.getElem?_eq_getElem hf]
+        rfl
+      simp only [readCell, setCell, modifyNth_getElem?] at hq ⊢
+      rw [hq]
+      simp only [Option.map_some, Option.getD_some]
+      have := hcell
+      simp only [readCell] at this
+      rw [hq] at this
+      simp only [Option.getD_some] at this
+      rw [this]
+    rw [key, hcell]
+    refine ⟨rfl, ?_⟩
+    intro heq
+    injection heq with _ h2
+    injection h2 with h3
+    omega
+
+/-! Non-vacuity: each writing branch has a trace, the heap version computes what the pure model computes, and
+the variant without the clone is seen on a concrete heap (cell 0 changes under the caller's feet; with the clone
+cell 0 is `0/2` in every heap). -/
+example : ((shiftTrace true ⟨[⟨0, some 2⟩, ⟨2, some 2⟩], [[0, 1]]⟩ 3 ⟨0, 0, 2⟩).1.length,
+           (shiftTrace true ⟨[⟨1, some 2⟩, ⟨2, some 2⟩], [[0, 1]]⟩ 3 ⟨0, 0, 2⟩).1.length,
+           (shiftTrace true ⟨[⟨1, some 2⟩, ⟨2, some 2⟩], [[0, 1]]⟩ (-1) ⟨0, 0, 2⟩).1.length) = (5, 4, 4) := by decide
+example :
+    (let r := shiftTrace true ⟨[⟨0, some 2⟩, ⟨2, some 2⟩], [[0, 1]]⟩ 3 ⟨0, 0, 2⟩
+     r.1.getLast?.map (fun e => readSegs e r.2)) = some (shift 3 [⟨0, some 2⟩, ⟨2, some 2⟩]) := by decide
+example :
+    (let r := shiftTrace true ⟨[⟨1, some 2⟩, ⟨2, some 2⟩], [[0, 1]]⟩ (-1) ⟨0, 0, 2⟩
+     r.1.getLast?.map (fun e => readSegs e r.2)) = some (shift (-1) [⟨1, some 2⟩, ⟨2, some 2⟩]) := by decide
+example :
+    ((shiftTrace false ⟨[⟨0, some 2⟩, ⟨2, some 2⟩], [[0, 1]]⟩ 3 ⟨0, 0, 2⟩).1.map (fun e => readCell e 0),
+     (shiftTrace true ⟨[⟨0, some 2⟩, ⟨2, some 2⟩], [[0, 1]]⟩ 3 ⟨0, 0, 2⟩).1.map (fun e => readCell e 0)) =
+    ([⟨0, some 2⟩, ⟨0, some 5⟩, ⟨0, some 5⟩, ⟨0, some 5⟩, ⟨0, some 5⟩],
+     [⟨0, some 2⟩, ⟨0, some 2⟩, ⟨0, some 2⟩, ⟨0, some 2⟩, ⟨0, some 2⟩]) := by decide
+
+/-! ## Round 8: `modepb.Sum`, statement by statement (the last writer) -/
+
+/-- `modepb.Sum` at every moment: after each statement of every `segmentpb.Shift` of its alignment loop, after
+each iteration of the loop of `segmentpb.Sum` and after the allocation of the `result` array — for any heap and
+any modes (with or without start times) — every pre-existing segment cell and backing array is unchanged; the
+last heap of the trace is the heap `C18_args_unchanged_modes` speaks about.  With `C18_args_never_written_shift`,
+`_modeShift`, `_modeCut` and `_sum` every operation of the two packages that writes at all is covered statement by
+statement. -/
+theorem C18_args_never_written_modeSum (h : Heap) (ms : List HeapMode) :
+    (∀ hi ∈ modeSumTrace h ms,
+      (∀ a, a < h.cells.length → hi.cells[a]? = h.cells[a]?) ∧
+      (∀ i, i < h.arrays.length → hi.arrays[i]? = h.arrays[i]?)) ∧
+    (∀ hl, (modeSumTrace h ms).getLast? = some hl → hl = (heapModeSum h ms).1) :=
+  ⟨fun hi hmem => (modeSumTrace_extends h ms hi hmem).pointwise, modeSumTrace_last h ms⟩
+
+/-- …and what a concurrent reader of ANY pre-existing segment list (the segments of one of the modes being
+summed, say) sees during `modepb.Sum`: the same values at every moment. -/
+theorem C18_concurrent_reader_modeSum (h : Heap) (sl' : Slice) (ha : sl'.arr < h.arrays.length)
+    (hc : ∀ a ∈ readSlice h sl', a < h.cells.length) (ms : List HeapMode) :
+    ∀ hi ∈ modeSumTrace h ms, readSegs hi sl' = readSegs h sl' :=
+  fun hi hmem => readSegs_extends (modeSumTrace_extends h ms hi hmem) sl' ha hc
+
+example :
+    (modeSumTrace ⟨[⟨1, some 2⟩, ⟨2, some 4⟩, ⟨3, some 1⟩], [[0, 1], [2]]⟩
+      [⟨some 0, ⟨0, 0, 2⟩⟩, ⟨some 2, ⟨1, 0, 1⟩⟩]).length = 12 := by decide
+example :
+    (let h : Heap := ⟨[⟨1, some 2⟩, ⟨2, some 4⟩, ⟨3, some 1⟩], [[0, 1], [2]]⟩
+     let ms : List HeapMode := [⟨some 0, ⟨0, 0, 2⟩⟩, ⟨some 2, ⟨1, 0, 1⟩⟩]
+     (modeSumTrace h ms).getLast?.map (fun e => (heapModeSum h ms).2.map (fun r => trimLast (dropRule false) (readSegs e r.segs))))
+    = some ((modeSum [⟨some 0, [⟨1, some 2⟩, ⟨2, some 4⟩]⟩, ⟨some 2, [⟨3, some 1⟩]⟩]).map (fun r => r.segs)) := by decide
 
 end ScVerif.C18
